@@ -386,3 +386,87 @@ def run_c06(prop, tier, seed, t0):
              "racy_shape_executions_lower_bound": agg.counters.get("zero_copy_winners", 0) + agg.counters.get("point5_hits", 0) + agg.counters.get("point15_hits", 0)}
     return finish(prop, tier, seed, agg, t0, "exploration", rule, extra=extra, min_eval_key="executions",
                   assumptions=["Miri's and TSan's happens-before models; Miri does not emulate every hardware reordering, TSan does not model fences (the crate uses an Acquire load instead)", "sampled schedules only"])
+
+
+# ----------------------------------------------------------------------------------- C16
+
+
+@plan("C16")
+def run_c16(prop, tier, seed, t0):
+    quick = tier != "thorough"
+    cfgs = ["dbg", "rel", "dbg-nostd", "rel-nostd", "dbg-xp", "rel-xp"]
+    count = 120 if quick else 4000
+    nsh = 1 if quick else 4
+    jobs = []
+    streams = {"walk": [], "walko": ["--ooc"], "walkm": ["--profile", "mut"], "walkom": ["--ooc", "--profile", "mut"]}
+    for c in cfgs:
+        build(c, ["seqdrive"])
+        exe = binpath(c, "seqdrive")
+        for par in ("even", "odd"):
+            for sname, extra in streams.items():
+                for s in range(nsh):
+                    argv = [exe, "walk", "--seed", str(seed), "--shard", str(s), "--nshards", str(nsh), "--count", str(count), "--digest", "--parity", par] + extra
+                    jobs.append(Job(f"{c}/{par}/{sname}:{s}", argv, build=c, timeout=2400))
+    # getter table digests: native configs with std, both parities
+    gsh = 4
+    for c in ["dbg", "rel", "dbg-xp", "rel-xp"]:
+        build(c, ["bufconf"])
+        exe = binpath(c, "bufconf")
+        for par in ("even", "odd"):
+            for s in range(gsh):
+                argv = [exe, "getters", "--shard", str(s), "--nshards", str(gsh), "--digest", "--parity", par]
+                jobs.append(Job(f"{c}/{par}/get:{s}", argv, build=c, timeout=2400))
+    # pointer width and endianness as configuration axes: slices of the same table under Miri
+    tot = 600
+    picks = [(seed * 41 + k * 97) % tot for k in range(2 if quick else 8)]
+    exe = binpath("dbg", "bufconf")
+    for k in picks:
+        jobs.append(Job(f"dbg/slice/get:{k}", [exe, "getters", "--shard", str(k), "--nshards", str(tot), "--digest"], build="dbg", timeout=1200))
+    for tname, target in (("miri-host", None), ("miri-i686", "i686-unknown-linux-gnu"), ("miri-s390x", "s390x-unknown-linux-gnu")):
+        js = buf_miri("getters", [["--shard", str(k), "--nshards", str(tot), "--digest"] for k in picks], tname + "/-/get", seed, target=target, timeout=3000)
+        jobs += js
+    agg = Agg(prop)
+    done = run_jobs(jobs)
+    table = {}  # (stream, case) -> {config: hash}
+    steps = 0
+    for j in done:
+        agg.absorb(j)
+        cfgname = j.label.split(":")[0].rsplit("/", 1)[0]
+        for line in j.out.splitlines():
+            if line.startswith("DIGEST "):
+                parts = line.split()
+                if len(parts) == 4:
+                    table.setdefault((parts[1], parts[2]), {})[cfgname] = parts[3]
+                    steps += 1
+    compared = 0
+    pairs = 0
+    for key, per in sorted(table.items()):
+        items = dict(per)
+        if "_ne" in key[1]:
+            # native-endian getters legitimately differ between little- and big-endian targets
+            items = {c: h for c, h in items.items() if "s390x" not in c}
+        if len(items) < 2:
+            continue
+        compared += 1
+        pairs += len(items) - 1
+        hs = set(items.values())
+        agg.cells.add(f"dg|{key[0]}|{len(items)}cfg|{'same' if len(hs) == 1 else 'diff'}|{hash(key[1]) % 64}")
+        if len(hs) != 1:
+            groups = {}
+            for c, h in items.items():
+                groups.setdefault(h, []).append(c)
+            detail = "; ".join(f"{h}: {','.join(sorted(cs))}" for h, cs in groups.items())
+            fake = Job(f"digest:{key[0]}:{key[1]}", ["python3", "check.py", "C16"], build=None)
+            agg.viols.append((prop, f"digest-diff:{key[0]}", f"{key[0]}:{key[1]}", f"outcome digests of {key[0]} case {key[1]} differ between configurations: {detail}", fake))
+    agg.counters["digest_keys_compared"] = compared
+    agg.counters["digest_pairs"] = pairs
+    agg.counters["digests_collected"] = steps
+    agg.counters["configurations"] = len({c for per in table.values() for c in per})
+    if compared:
+        agg.samples.insert(0, f"{compared} (stream, case) keys compared across up to {agg.counters['configurations']} configurations, e.g. " + "; ".join(f"{k[0]}:{k[1]} -> {sorted(set(v.values()))[0]} in {len(v)} configs" for k, v in list(sorted(table.items()))[:3]))
+    rule = ("the same seeded histories (seqdrive walks: general, with out-of-contract calls, BytesMut-centred, both) are executed in {debug, release} x {default, no-default-features, extra-platforms} x {even, odd} buffer-address parity and a per-history digest of all observable results "
+            "(contents, lengths, capacities, is_unique/try_reclaim/getter return values, which calls panicked; never addresses or messages) is compared for equality; likewise per-row digests of the getter table across {dbg, rel} x {default, extra-platforms} x parity, and for seeded slices of it under Miri host / i686 (32-bit) / s390x (big-endian, _ne rows excluded). "
+            "evaluations = (stream, case) keys compared; a cell = stream x number of configurations x agreement x bucket.")
+    return finish(prop, tier, seed, agg, t0, "exploration", rule, min_eval_key="digest_keys_compared",
+                  assumptions=["the generators make the same choices in every configuration (choices depend on model state, lengths and capacities only); a divergence in choices shows up as a digest difference and is investigated as such",
+                               "abort-class arguments are excluded (abort vs panic depends on the allocator)"])
